@@ -104,7 +104,7 @@ theorem prepare_good (cfg : Cfg) (hg : cfg.guarded = true) (d0 : Dst) (st : St)
 
 /-- one request from a good state with a zero counter -/
 theorem doRequest_good (cfg : Cfg) (i : Nat) (d0 : Dst) (st : St) (r : Resp)
-    (h : Good d0 cfg.blob st) (hn : st.n = 0) :
+    (h : Good d0 cfg.blob st) (hn : st.n = 0) (hr : r.honest cfg.blob.length) :
     ((doRequest cfg i st r).2 = .ok → (doRequest cfg i st r).1.dst = d0.write cfg.blob) ∧
     ((doRequest cfg i st r).2 ≠ .ok → Good d0 cfg.blob (doRequest cfg i st r).1) := by
   obtain ⟨hk, hrest⟩ := h
@@ -142,6 +142,10 @@ theorem doRequest_good (cfg : Cfg) (i : Nat) (d0 : Dst) (st : St) (r : Resp)
   | netErr => simp [doRequest, request, Good, hk, hrest]
   | status c => simp [doRequest, request, Good, hk, hrest]
   | full ch => simp [doRequest, request, full_ok]
+  | eof k =>
+    have hk : cfg.blob.length ≤ k := hr
+    have htake : cfg.blob.take k = cfg.blob := List.take_of_length_le hk
+    simp [doRequest, request, htake, full_ok]
   | cut k ch =>
     cases ch with
     | true =>
@@ -158,31 +162,31 @@ theorem doRequest_good (cfg : Cfg) (i : Nat) (d0 : Dst) (st : St) (r : Resp)
 
 /-- the POLL loop of one origin keeps the invariant, and a success leaves exactly one copy -/
 theorem pollOrigin_good (cfg : Cfg) (hg : cfg.guarded = true) (d0 : Dst) (i : Nat) :
-    ∀ (script : List Resp) (b : Nat) (st : St), Good d0 cfg.blob st →
+    ∀ (script : List Resp) (b : Nat) (st : St), Good d0 cfg.blob st → (∀ r ∈ script, r.honest cfg.blob.length) →
       ((pollOrigin cfg i script b st).2 = .done .ok → (pollOrigin cfg i script b st).1.dst = d0.write cfg.blob) ∧
       ((pollOrigin cfg i script b st).2 ≠ .done .ok → Good d0 cfg.blob (pollOrigin cfg i script b st).1) := by
   intro script
   induction script with
   | nil =>
-    intro b st h
+    intro b st h _
     have hp := prepare_good cfg hg d0 st h
     unfold pollOrigin
     cases hprep : prepare cfg st with
     | none => simp [h]
     | some st1 =>
       rw [hprep] at hp
-      have hr := doRequest_good cfg i d0 st1 .netErr hp.1 hp.2.1
+      have hr := doRequest_good cfg i d0 st1 .netErr hp.1 hp.2.1 trivial
       simp only [reduceCtorEq, false_implies, ne_eq, not_false_eq_true, true_implies, true_and]
       exact hr.2 (by simp [doRequest, request])
   | cons r rest ih =>
-    intro b st h
+    intro b st h hhon
     have hp := prepare_good cfg hg d0 st h
     unfold pollOrigin
     cases hprep : prepare cfg st with
     | none => simp [h]
     | some st1 =>
       rw [hprep] at hp
-      have hr := doRequest_good cfg i d0 st1 r hp.1 hp.2.1
+      have hr := doRequest_good cfg i d0 st1 r hp.1 hp.2.1 (hhon r (by simp))
       simp only
       generalize hreq : doRequest cfg i st1 r = res at hr
       obtain ⟨st2, out⟩ := res
@@ -196,7 +200,7 @@ theorem pollOrigin_good (cfg : Cfg) (hg : cfg.guarded = true) (d0 : Dst) (i : Na
         · simp only [h202, if_true]
           cases b with
           | zero => simpa using hgood
-          | succ b' => exact ih b' st2 hgood
+          | succ b' => exact ih b' st2 hgood (fun r' hr' => hhon r' (List.mem_cons_of_mem _ hr'))
         · simp only [h202, if_false]
           by_cases h500 : c < 500
           · simp [h500, hgood]
@@ -205,18 +209,19 @@ theorem pollOrigin_good (cfg : Cfg) (hg : cfg.guarded = true) (d0 : Dst) (i : Na
 /-- the ORIGINS loop -/
 theorem pollFrom_good (cfg : Cfg) (hg : cfg.guarded = true) (d0 : Dst) :
     ∀ (os : List (List Resp)) (i : Nat) (st : St), Good d0 cfg.blob st →
+      (∀ o ∈ os, ∀ r ∈ o, r.honest cfg.blob.length) →
       (pollFrom cfg i os st).2 = .ok → (pollFrom cfg i os st).1.dst = d0.write cfg.blob := by
   intro os
   induction os with
-  | nil => intro i st _ h; simp [pollFrom] at h
+  | nil => intro i st _ _ h; simp [pollFrom] at h
   | cons o os ih =>
-    intro i st hgood
-    have ho := pollOrigin_good cfg hg d0 i o cfg.bo st hgood
+    intro i st hgood hhon
+    have ho := pollOrigin_good cfg hg d0 i o cfg.bo st hgood (hhon o (by simp))
     unfold pollFrom
     generalize hres : pollOrigin cfg i o cfg.bo st = res at ho
     obtain ⟨st', step⟩ := res
     cases step with
-    | next => exact ih (i + 1) st' (ho.2 (by simp))
+    | next => exact ih (i + 1) st' (ho.2 (by simp)) (fun o' ho' => hhon o' (List.mem_cons_of_mem _ ho'))
     | done r =>
       simp only
       intro hr
@@ -225,9 +230,10 @@ theorem pollFrom_good (cfg : Cfg) (hg : cfg.guarded = true) (d0 : Dst) :
 
 /-! ### success needs a delivering response (guarded or not) -/
 
-theorem doRequest_ok (cfg : Cfg) (i : Nat) (st : St) (r : Resp) :
+theorem doRequest_ok (cfg : Cfg) (i : Nat) (st : St) (r : Resp) (hr : r.honest cfg.blob.length) :
     (doRequest cfg i st r).2 = .ok → r.delivers cfg.blob.length = true := by
   cases r with
+  | eof k => intro _; have hk : cfg.blob.length ≤ k := hr; simpa [Resp.delivers] using hk
   | netErr => simp [doRequest, request]
   | status c => simp [doRequest, request]
   | full ch => simp [Resp.delivers]
@@ -254,22 +260,22 @@ theorem prepare_trace (cfg : Cfg) (st st1 : St) (h : prepare cfg st = some st1) 
       · simp at h
 
 theorem pollOrigin_ok (cfg : Cfg) (i : Nat) :
-    ∀ (script : List Resp) (b : Nat) (st : St),
+    ∀ (script : List Resp) (b : Nat) (st : St), (∀ r ∈ script, r.honest cfg.blob.length) →
       (pollOrigin cfg i script b st).2 = .done .ok → ∃ r ∈ script, r.delivers cfg.blob.length = true := by
   intro script
   induction script with
   | nil =>
-    intro b st
+    intro b st _
     unfold pollOrigin
     cases prepare cfg st <;> simp
   | cons r rest ih =>
-    intro b st
+    intro b st hhon
     unfold pollOrigin
     cases prepare cfg st with
     | none => simp
     | some st1 =>
       simp only
-      have hr := doRequest_ok cfg i st1 r
+      have hr := doRequest_ok cfg i st1 r (hhon r (by simp))
       generalize doRequest cfg i st1 r = res at hr
       obtain ⟨st2, out⟩ := res
       cases out with
@@ -283,27 +289,27 @@ theorem pollOrigin_ok (cfg : Cfg) (i : Nat) :
           | zero => simp
           | succ b' =>
             intro h
-            obtain ⟨r', hm, hd⟩ := ih b' st2 h
+            obtain ⟨r', hm, hd⟩ := ih b' st2 (fun r' hr' => hhon r' (List.mem_cons_of_mem _ hr')) h
             exact ⟨r', List.mem_cons_of_mem _ hm, hd⟩
         · simp only [h202, if_false]
           by_cases h500 : c < 500 <;> simp [h500]
 
 theorem pollFrom_ok (cfg : Cfg) :
-    ∀ (os : List (List Resp)) (i : Nat) (st : St),
+    ∀ (os : List (List Resp)) (i : Nat) (st : St), (∀ o ∈ os, ∀ r ∈ o, r.honest cfg.blob.length) →
       (pollFrom cfg i os st).2 = .ok → ∃ o ∈ os, ∃ r ∈ o, r.delivers cfg.blob.length = true := by
   intro os
   induction os with
-  | nil => intro i st h; simp [pollFrom] at h
+  | nil => intro i st _ h; simp [pollFrom] at h
   | cons o os ih =>
-    intro i st
-    have ho := pollOrigin_ok cfg i o cfg.bo st
+    intro i st hhon
+    have ho := pollOrigin_ok cfg i o cfg.bo st (hhon o (by simp))
     unfold pollFrom
     generalize pollOrigin cfg i o cfg.bo st = res at ho
     obtain ⟨st', step⟩ := res
     cases step with
     | next =>
       intro h
-      obtain ⟨o', hm, hd⟩ := ih (i + 1) st' h
+      obtain ⟨o', hm, hd⟩ := ih (i + 1) st' (fun o' ho' => hhon o' (List.mem_cons_of_mem _ ho')) h
       exact ⟨o', List.mem_cons_of_mem _ hm, hd⟩
     | done r =>
       simp only
@@ -419,6 +425,7 @@ def FailsOver (blobLen : Nat) : List Resp → Prop
   | .cut k false :: _ => k < blobLen
   | .cut _ true :: _ => True
   | .full _ :: _ => False
+  | .eof _ :: _ => False
 
 /-- … and it fails before any body byte arrives -/
 def FailsClean (blobLen : Nat) : List Resp → Prop
@@ -428,6 +435,7 @@ def FailsClean (blobLen : Nat) : List Resp → Prop
   | .cut k false :: _ => k = 0 ∧ 0 < blobLen
   | .cut k true :: _ => k = 0 ∨ blobLen = 0
   | .full _ :: _ => False
+  | .eof _ :: _ => False
 
 def HeadDelivers (blobLen : Nat) : List Resp → Prop
   | r :: _ => r.delivers blobLen = true
@@ -467,20 +475,21 @@ theorem pollOrigin_failsOver (cfg : Cfg) (hg : cfg.guarded = true) (d0 : Dst) (i
     (hf : (d0.kind = .seek ∧ FailsOver cfg.blob.length script) ∨ FailsClean cfg.blob.length script) :
     (pollOrigin cfg i script b st).2 = .next ∧ Ready d0 cfg.blob (pollOrigin cfg i script b st).1 := by
   obtain ⟨st1, hprep, hgood1, hn1⟩ := ready_prepare cfg hg d0 st h
-  have hreq := fun r => doRequest_good cfg i d0 st1 r hgood1 hn1
+  have hreq := fun r (hr : r.honest cfg.blob.length) => doRequest_good cfg i d0 st1 r hgood1 hn1 hr
   cases script with
   | nil =>
     unfold pollOrigin; rw [hprep]
-    refine ⟨rfl, (hreq .netErr).2 (by simp [doRequest, request]), ?_⟩
+    refine ⟨rfl, (hreq .netErr trivial).2 (by simp [doRequest, request]), ?_⟩
     right; simp [doRequest, request, hn1]
   | cons r rest =>
     unfold pollOrigin; rw [hprep]
     cases r with
     | netErr =>
       simp only [doRequest, request]
-      refine ⟨trivial, by simpa [doRequest, request] using (hreq .netErr).2 (by simp [doRequest, request]), ?_⟩
+      refine ⟨trivial, by simpa [doRequest, request] using (hreq .netErr trivial).2 (by simp [doRequest, request]), ?_⟩
       right; simp [hn1]
     | full ch => rcases hf with hf | hf <;> simp [FailsOver, FailsClean] at hf
+    | eof k => rcases hf with hf | hf <;> simp [FailsOver, FailsClean] at hf
     | status c =>
       have hc : 500 ≤ c := by
         rcases hf with hf | hf
@@ -489,7 +498,7 @@ theorem pollOrigin_failsOver (cfg : Cfg) (hg : cfg.guarded = true) (d0 : Dst) (i
       have h1 : ¬ c = 202 := by omega
       have h2 : ¬ c < 500 := by omega
       simp only [doRequest, request, h1, h2, if_false]
-      refine ⟨trivial, by simpa [doRequest, request] using (hreq (.status c)).2 (by simp [doRequest, request]), ?_⟩
+      refine ⟨trivial, by simpa [doRequest, request] using (hreq (.status c) trivial).2 (by simp [doRequest, request]), ?_⟩
       right; simp [hn1]
     | cut k ch =>
       cases ch with
@@ -497,16 +506,16 @@ theorem pollOrigin_failsOver (cfg : Cfg) (hg : cfg.guarded = true) (d0 : Dst) (i
         rcases hf with hf | hf
         · have hk : k < cfg.blob.length := by simpa [FailsOver] using hf.2
           simp only [doRequest, request, hk, if_true]
-          refine ⟨trivial, by simpa [doRequest, request, hk] using (hreq (.cut k false)).2 (by simp [doRequest, request, hk]), ?_⟩
+          refine ⟨trivial, by simpa [doRequest, request, hk] using (hreq (.cut k false) trivial).2 (by simp [doRequest, request, hk]), ?_⟩
           left; exact hf.1
         · obtain ⟨hk0, hb⟩ : k = 0 ∧ 0 < cfg.blob.length := by simpa [FailsClean] using hf
           subst hk0
           simp only [doRequest, request, hb, if_true]
-          refine ⟨trivial, by simpa [doRequest, request, hb] using (hreq (.cut 0 false)).2 (by simp [doRequest, request, hb]), ?_⟩
+          refine ⟨trivial, by simpa [doRequest, request, hb] using (hreq (.cut 0 false) trivial).2 (by simp [doRequest, request, hb]), ?_⟩
           right; simp [hn1]
       | true =>
         simp only [doRequest, request]
-        refine ⟨trivial, by simpa [doRequest, request] using (hreq (.cut k true)).2 (by simp [doRequest, request]), ?_⟩
+        refine ⟨trivial, by simpa [doRequest, request] using (hreq (.cut k true) trivial).2 (by simp [doRequest, request]), ?_⟩
         rcases hf with hf | hf
         · left; exact hf.1
         · right
@@ -526,6 +535,7 @@ theorem pollOrigin_delivers (cfg : Cfg) (hg : cfg.guarded = true) (d0 : Dst) (i 
     | netErr => simp [HeadDelivers, Resp.delivers] at hd
     | status c => simp [HeadDelivers, Resp.delivers] at hd
     | full ch => simp [doRequest, request]
+    | eof k => simp [doRequest, request]
     | cut k ch =>
       cases ch with
       | true => simp [HeadDelivers, Resp.delivers] at hd
